@@ -93,7 +93,8 @@ def t_two_sided(p, nu):
 
 # all representable in f32; the last two are the largest f32 below one and its odd neighbour (the two-sided tail is then 2^-25 and
 # 3 * 2^-25: any rounding of 1 + p before the quantile is taken is visible there)
-PROBS = [0.01, 0.5, 0.683, 0.9, 0.99, 1 - 2.0 ** -20, 1 - 3 * 2.0 ** -24, 1 - 2.0 ** -24]
+# ... and two tiny ones (2^-149 is the smallest positive f32): 1 + p rounds to 1, the band radius is then 0 — finite and legal
+PROBS = [2.0 ** -149, 2.0 ** -60, 0.01, 0.5, 0.683, 0.9, 0.99, 1 - 2.0 ** -20, 1 - 3 * 2.0 ** -24, 1 - 2.0 ** -24]
 BAD = [0.0, 1.0, -0.1, 1.5, float("nan"), float("inf")]
 # the largest double below one: (1 + p) / 2 is not representable and rounds to 1 (see known_findings.txt)
 EDGE = [1 - 2.0 ** -53]
@@ -178,6 +179,9 @@ def main(tier, seed, replay=None):
             cases.append(statsrun.gen_stats_case(rng, M, P, M + P + dof, scalar=sc, weights=["none", "pos", "zeros", "neg"][k % 4] if dof > 2 else ["none", "pos", "neg"][k % 3], noise=0.1,
                                                  quant=(8 if k % 3 else None), probs=PROBS + BAD + (EDGE if sc == "f64" else [])))
     results, idx, hist, nerr = c13.run_stats_values(run, "C14", cases, binp, (20, 29, 30, 31), "confidence band")
+    # release profile (no debug assertions / overflow checks) on every second case
+    _, _, rhist, _ = c13.run_stats_values(run, "C14", [c for k, c in enumerate(cases) if k % 2 == 0], build_harness("release"), (20, 29, 30, 31),
+                                          "confidence band (release profile)", tag="rel")
     # many degrees of freedom (the quantile must still be Student's t with exactly N-M-P degrees of freedom): band relation only
     big = []
     for j, N in enumerate([1005, 1203, 2500] if tier == "quick" else [1003, 1005, 1100, 1203, 1500, 2500, 4000]):
@@ -201,13 +205,18 @@ def main(tier, seed, replay=None):
         for b, pr in zip(st["bands"], PROBS):
             pr_eff = unhx(hx(pr, c["scalar"]))
             tt = t_two_sided(pr_eff, dof)
+            if b.get("panic"):
+                run.violation("probability %r inside (0,1) was rejected (dof %d)" % (pr, dof), {"case": c, "p": pr, "band": b})
+                break
             if abs(b["t"] - tt) > 1e-4 * max(1.0, abs(tt)):
                 run.violation("quantile mismatch for p=%r, dof=%d: %r vs %r" % (pr, dof, b["t"], tt), {"case": c}, no_failing_input=True)
             # the independent quantile (accurate to ~1e-10) decides: the band must be t * sigma with THIS t up to the accuracy of the
             # library's own quantile routine (1e-5 relative)
             rad = [unhx(h) for h in b["radius"]]
             us = [unhx(h) for h in st["usigma"]]
-            worst = max(abs(a - tt * u) / max(tt * u, 1e-300) for a, u in zip(rad, us))
+            # relative 5e-5 on the quantile plus an absolute 1e-12 (in units of sigma_i): for tiny p the exact quantile is ~p while
+            # the library's is a rounding residue of the order 1e-16 — both mean "radius zero"
+            worst = max((abs(a - tt * u) - 1e-12 * u) / max(tt * u, 1e-300) for a, u in zip(rad, us))
             if worst > 5e-5:
                 run.violation("band radius is not t((1+p)/2; N-M-P) * sigma_i at %d degrees of freedom (p=%r, relative deviation %.3g)"
                               % (dof, pr, worst), {"case": c, "p": pr, "t_student": tt, "dof": dof})
@@ -310,7 +319,7 @@ def main(tier, seed, replay=None):
                 "arithmetic, Model/Numeric.check_stats code 30) with t the Student-t quantile at (1+p)/2 and N-M-P degrees of freedom "
                 "(cross-checked against an independent incomplete-beta evaluation), sigma_i^2 = j_i^T Cov j_i with the unweighted j_i "
                 "(code 29), finite, non-negative, one entry per sample, non-decreasing in p" % (PROBS, BAD),
-        "large_dof_band_checks": len(bterms), "edge_probability_checks": nedge, "quantile_argument_bit_exact_checks": nband, "dof_histogram": {str(k): v for k, v in sorted(ndof.items())}, "value_code_histogram": {str(k): v for k, v in hist.items()},
+        "large_dof_band_checks": len(bterms), "edge_probability_checks": nedge, "quantile_argument_bit_exact_checks": nband, "dof_histogram": {str(k): v for k, v in sorted(ndof.items())}, "value_code_histogram": {str(k): v for k, v in hist.items()}, "release_profile_value_code_histogram": {str(k): v for k, v in rhist.items()},
         "fits_that_returned_err": nerr})
     run.samples = [{"meta": c["meta"], "scalar": c["scalar"]} for c, r in idx[:3]]
     run.coverage["trusted_base"] = run.coverage.get("trusted_base", []) + [
